@@ -40,6 +40,7 @@ def _gen_election(rng, family=None, maxc=7, maxb=9):
     if family == 'cotie': return gen_cotie(rng)
     if family == 'cochain': return gen_cochain(rng)
     if family == 'zeros': return gen_zeros(rng)
+    if family == 'writein_strong': return gen_writein_strong(rng)
     if family == 'exactquota4': return gen_exact_quota(rng, 4)
     if family == 'exactquota5': return gen_exact_quota(rng, 5)
     if family == 'exactquota9': return gen_exact_quota(rng, 9)
@@ -166,6 +167,26 @@ def gen_cochain(rng):
         k = rng.choice([10 ** 9, 10 ** 12, 10 ** 9 + 7])
         lines = [(mu * k, r) for mu, r in lines]
     return _finish(rng, n, s, lines)
+
+def gen_writein_strong(rng):
+    """Minneapolis: undeclared write-ins with real support -- at or above the threshold on the first count, often while the
+    declared candidates at the threshold do not fill the seats (a write-in is never electable, whatever its support)"""
+    n = rng.randint(3, 6); s = rng.randint(1, min(3, n - 1))
+    nund = rng.randint(1, min(2, n - 1))
+    ids = list(range(1, n + 1)); rng.shuffle(ids)
+    und = sorted(ids[:nund]); declared = ids[nund:]
+    lines = []
+    for c in und:
+        lines.append((rng.randint(6, 25), [c] + rng.sample(declared, rng.randint(0, len(declared)))))
+    strong = rng.sample(declared, rng.randint(0, min(len(declared), s)))
+    for c in declared:
+        others = [x for x in ids if x != c]; rng.shuffle(others)
+        lines.append(((rng.randint(6, 25) if c in strong else rng.randint(1, 4)), [c] + others[:rng.randint(0, len(others))]))
+    for _ in range(rng.randint(0, 2)):
+        lines.append((1, rng.sample(ids, rng.randint(1, n))))
+    rng.shuffle(lines)
+    tie = list(range(1, n + 1)); rng.shuffle(tie)
+    return dict(n=n, s=s, wd=[], und=und, tie=tie, lines=lines, eq=[], names=['c%d' % i for i in range(1, n + 1)], family='writein_strong')
 
 def gen_zeros(rng):
     """fewer candidates with any support than seats, and a crowd of candidates nobody ranks first (or at all): the
